@@ -84,7 +84,9 @@ func c11One(c *Ctx, op, src string, cands []string, extra []string, local map[st
 		local["rewritten"]++
 		lits, regexLeft := collectLits(after)
 		if regexLeft {
-			viol = func() { r.Violation("half-rewritten", det("rewritten condition still has a regex operator: "+after.String())) }
+			viol = func() {
+				r.Violation("half-rewritten", det("rewritten condition still has a regex operator: "+after.String()))
+			}
 			return
 		}
 		if len(lits) > 100 {
